@@ -216,6 +216,7 @@ class C09(QueryBase):
             for x in real.V:
                 for y in real.V:
                     try:
+                        rule_find_links(x, y, False, 0, None)      # only pairs the statement speaks about
                         snap[(id(x), id(y))] = set(map(id, helpers.find_links(x, y, direction_sensitive=False)))
                     except Exception:  # noqa: BLE001
                         snap[(id(x), id(y))] = None
